@@ -828,6 +828,38 @@ func init() {
 			if nMask < 6 {
 				r.bad("31-bit masks", "?", fmt.Sprintf("only %d stores of a stream identifier or increment through a mask were found", nMask))
 			}
+			// the decoder's own account of whether a step produced a field: cleared on entry, set where a field representation has been decoded without error, stored nowhere else
+			if fd := p.decl("(*HPACK).nextField"); fd != nil {
+				r.fn("(*HPACK).nextField")
+				t := stmtTexts(p, fd.Body.List)
+				first, last := -1, -1
+				for i, x := range t {
+					if x == "hp.fieldDecoded=false" && first < 0 {
+						first = i
+					}
+					if x == "hp.fieldDecoded=err==nil" {
+						last = i
+					}
+				}
+				others := 0
+				for name, d := range p.funcDecls {
+					if d.Body == nil || name == "(*HPACK).nextField" || name == "(*HPACK).Reset" {
+						continue
+					}
+					ast.Inspect(d.Body, func(n ast.Node) bool {
+						if as, ok := n.(*ast.AssignStmt); ok {
+							for _, l := range as.Lhs {
+								if strings.HasSuffix(squash(p.text(l)), ".fieldDecoded") {
+									others++
+								}
+							}
+						}
+						return true
+					})
+				}
+				// the label of the loop over size updates comes after the clearing; the final store sits just before the last return
+				r.check(first >= 0 && first <= 2 && last == len(t)-2 && others == 0, "the decoder records whether a step produced a field", p.pos(fd.Pos()), "fieldDecoded = false on entry; fieldDecoded = err == nil before the final return; no other store", "HPACK.nextField no longer records, cleared on entry and set after a field representation has been decoded, whether the step produced a field (or something else stores the mark): the decode loops take its word, and a wrong word drops a field or counts a table size update as one")
+			}
 			if fd := p.decl("parseUint"); fd != nil {
 				r.fn("parseUint")
 				zero, step := false, false
@@ -852,6 +884,60 @@ func init() {
 				r.check(zero && step, "parseUint accumulates base-10 digits from zero", p.pos(fd.Pos()), "n := 0; n = n*10 + int(c-'0')", "parseUint no longer starts at zero and takes each digit as ten times the value so far plus the digit: content-length and :status mean something else than what was sent")
 			} else {
 				r.undecided("parseUint", "?", "no longer resolves")
+			}
+		},
+	})
+}
+
+func init() {
+	register(&Rule{
+		Name: "serialize-leaves-the-frame-alone", Props: []string{"C05"}, Engine: "AST", Floor: 8,
+		Doc: "writing a frame does not change it: no Serialize method of a frame body assigns to a field of its receiver. What a Serialize adds for the wire (padding, the priority section) belongs in the frame header's payload; stored back into the body it is there the next time the body is read or written, as data",
+		Run: func(p *Prog, r *Out) {
+			var names []string
+			for name := range p.funcDecls {
+				if strings.HasSuffix(name, ").Serialize") {
+					names = append(names, name)
+				}
+			}
+			sortStrings(names)
+			for _, name := range names {
+				fd := p.funcDecls[name]
+				if fd.Body == nil || fd.Recv == nil || len(fd.Recv.List) == 0 || len(fd.Recv.List[0].Names) == 0 {
+					continue
+				}
+				r.fn(name)
+				recv := fd.Recv.List[0].Names[0].Name
+				stored := ""
+				ast.Inspect(fd.Body, func(n ast.Node) bool {
+					as, ok := n.(*ast.AssignStmt)
+					if !ok {
+						return true
+					}
+					for _, l := range as.Lhs {
+						t := squash(p.text(l))
+						if strings.HasPrefix(t, recv+".") {
+							// an element store counts as well: h.rawHeaders[4] = ...
+							f := strings.TrimPrefix(t, recv+".")
+							if i := strings.IndexAny(f, "[."); i >= 0 {
+								f = f[:i]
+							}
+							if stored == "" || !strings.Contains(stored, f) {
+								if stored != "" {
+									stored += ", "
+								}
+								stored += f
+							}
+						}
+					}
+					return true
+				})
+				key := name + " does not store into the frame it writes"
+				if stored == "" {
+					r.ok(key, p.pos(fd.Pos()), "no assignment to a field of the receiver")
+				} else {
+					r.bad(key, p.pos(fd.Pos()), name+" assigns to "+recv+"."+stored+" while it writes the frame: what it adds for the wire (padding, the priority section) stays in the frame, so the frame read back after a write, or written a second time, carries it as data")
+				}
 			}
 		},
 	})
